@@ -17,10 +17,11 @@ func TestMakeExemplars(t *testing.T) {
 	l := func(x ...Val) Val { return Val{K: "list", X: x} }
 	nested := l(l(i(1)))
 	cases := map[string]Case{
-		"F25-nested-list-equality":  {nested, nested, l(l(i(2)))},
-		"F25-list-in-map-equality":  {Val{K: "map", Keys: []string{"a"}, X: []Val{l(i(1))}}, Val{K: "map", Keys: []string{"a"}, X: []Val{l(i(1))}, Rep: 1}, i(1)},
-		"F5-unequal-on-incomparable": {i(1), Val{K: "str", S: "a"}, Val{K: "bool", B: true}},
-		"int-float-neighbours":       {i(1<<53 - 1), Val{K: "float", F: 9007199254740992}, Val{K: "float", F: 9007199254740990}},
+		"F25-nested-list-equality":        {nested, nested, l(l(i(2)))},
+		"F25-list-in-map-equality":        {Val{K: "map", Keys: []string{"a"}, X: []Val{l(i(1))}}, Val{K: "map", Keys: []string{"a"}, X: []Val{l(i(1))}, Rep: 1}, i(1)},
+		"F5-unequal-on-incomparable":      {i(1), Val{K: "str", S: "a"}, Val{K: "bool", B: true}},
+		"same-object-with-NaN-or-closure": {l(i(1), Val{K: "float", FS: "nan"}), l(Val{K: "closure"}), Val{K: "map", Keys: []string{"a"}, X: []Val{Val{K: "float", FS: "nan"}}}},
+		"int-float-neighbours":            {i(1<<53 - 1), Val{K: "float", F: 9007199254740992}, Val{K: "float", F: 9007199254740990}},
 	}
 	for name, c := range cases {
 		os.Setenv("VERIF_FAILFILE", filepath.Join(dir, name+".json"))
